@@ -174,7 +174,7 @@ func runC01(c *Ctx) {
 			br := Args(CallOf(rr))[0]
 			ok := false
 			if call := CallResult(br, 0, "bufio.NewReader"); call != nil {
-				ok = PathOf(call.Call.Args[0]) == P(f, 2)+".Body"
+				ok = PathOf(PArgs(&call.Call)[0]) == P(f, 2)+".Body"
 			}
 			c.Check("C01.W", "post:parsed-from-own-body", p, rr.Pos(), ok, "response parsed from this call's body", "http.ReadResponse does not read bufio.NewReader(r.Body) of this call: "+PathOf(br))
 			sends := 0
@@ -214,8 +214,8 @@ func runC01(c *Ctx) {
 				a := Args(CallOf(call))[3]
 				ok := false
 				if g := CallResult(a, 0, "(net/http.Header).Get"); g != nil {
-					k, _ := ConstString(g.Call.Args[1])
-					ok = PathOf(g.Call.Args[0]) == P(f, 2)+".Header" && k == hdrRequestID
+					k, _ := ConstString(PArgs(&g.Call)[1])
+					ok = PathOf(PArgs(&g.Call)[0]) == P(f, 2)+".Header" && k == hdrRequestID
 				}
 				c.Check("C01.W", "dispatch:"+callee+":request-id", p, call.Pos(), ok, "request ID taken from this call's "+hdrRequestID+" header", "request ID passed to "+callee+" is "+PathOf(a)+", expected "+want+"(r.Header, "+hdrRequestID+")")
 			}
@@ -263,9 +263,9 @@ func runC01(c *Ctx) {
 		ok, why := false, "newID does not return fmt.Sprintf(\"%x\", <whole sha256 sum>)"
 		if len(rs) == 1 {
 			if sp := CallResult(ReturnValue(rs[0], 0), 0, "fmt.Sprintf"); sp != nil {
-				format, _ := ConstString(sp.Call.Args[0])
+				format, _ := ConstString(PArgs(&sp.Call)[0])
 				whole := false
-				SliceBack(sp.Call.Args[1], func(v ssa.Value) bool {
+				SliceBack(PArgs(&sp.Call)[1], func(v ssa.Value) bool {
 					if mi, isM := v.(*ssa.MakeInterface); isM {
 						if at, isArr := mi.X.Type().Underlying().(*types.Array); isArr && at.Len() == 32 {
 							if CallResult(mi.X, 0, "crypto/sha256.Sum256") != nil {
@@ -284,7 +284,7 @@ func runC01(c *Ctx) {
 		if len(rs) == 1 && !ok {
 			// hex.EncodeToString(sum[:]) of the whole array is the same string as Sprintf("%x", sum)
 			if hx := CallResult(ReturnValue(rs[0], 0), 0, "encoding/hex.EncodeToString"); hx != nil {
-				if sl, isS := hx.Call.Args[0].(*ssa.Slice); isS && sl.Low == nil && sl.High == nil {
+				if sl, isS := PArgs(&hx.Call)[0].(*ssa.Slice); isS && sl.Low == nil && sl.High == nil {
 					if al, isA := sl.X.(*ssa.Alloc); isA {
 						if at, isArr := derefT(al.Type()).Underlying().(*types.Array); isArr && at.Len() == 32 {
 							n, whole := 0, true
@@ -415,7 +415,7 @@ func runC01(c *Ctx) {
 			if rr := c.UniqueCall("C01.A", p, f, false, "net/http.ReadRequest"); rr != nil {
 				ok := false
 				if call := CallResult(Args(CallOf(rr))[0], 0, "bufio.NewReader"); call != nil {
-					ok = PathOf(call.Call.Args[0]) == P(f, 2)+".Body"
+					ok = PathOf(PArgs(&call.Call)[0]) == P(f, 2)+".Body"
 				}
 				c.Check("C01.A", "parse:contents-from-own-reply", p, rr.Pos(), ok, "the embedded request is parsed from the body of this reply", "http.ReadRequest does not read bufio.NewReader(proxyResp.Body)")
 			}
